@@ -141,6 +141,28 @@ def one_history(tag, idx, max_cmds, n_prefix):
     return combined, results, b_events, b_results, fresh.results
 
 
+def resolved_refs(raw):
+    """every element of a raw MIR with its source reference *resolved* (index -> entry), in MIR order; indices may be
+    renamed by a history, what they designate may not"""
+    refs = raw.get("source_refs", [])
+
+    def ref(i):
+        return tuple(sorted(refs[i].items())) if isinstance(i, int) and 0 <= i < len(refs) else ("DANGLING", i, len(refs))
+    out = [("party", p["name"], ref(p.get("source_ref_index"))) for p in raw["parties"]]
+    out += [("input", i["name"], ref(i.get("source_ref_index"))) for i in raw["inputs"]]
+    out += [("output", o["name"], ref(o.get("source_ref_index"))) for o in raw["outputs"]]
+    for pos, (k, op) in enumerate(raw["operations"].items()):
+        for n, b in op.items():
+            out.append(("op", pos, n, ref(b.get("source_ref_index"))))
+    for f in raw["functions"]:
+        out.append(("function", f["function"], ref(f.get("source_ref_index"))))
+        out += [("arg", f["function"], a["name"], ref(a.get("source_ref_index"))) for a in f["args"]]
+        for pos, (k, op) in enumerate(f["operations"].items()):
+            for n, b in op.items():
+                out.append(("fn-op", f["function"], pos, n, ref(b.get("source_ref_index"))))
+    return out
+
+
 def entry_point_histories(res, tier):
     """Histories through the real entry points, with sharing: a generated program with several compile points is
     rendered as a chain of modules (K10) — program j consists of the shared modules 0..j and its own file.  Each
@@ -159,14 +181,14 @@ def entry_point_histories(res, tier):
             continue
         via = "string" if idx % 4 == 0 else "script"
         timers = idx % 3 == 1          # a third of the chains with the compile timers enabled
-        r = k10.run_scripts(events, results, f"c08h{idx}", via=via, timers=timers)
+        r = k10.run_scripts(events, results, f"c08h{idx}", via=via, timers=timers, raw=True)
         if r is None:
             stats["not_renderable"] += 1
             continue
         hist, files = r
         stats["chains"] += 1
         for j in range(1, ncomp):
-            alone, _ = k10.run_scripts(events, results, f"c08f{idx}_{j}", via=via, only={j}, timers=timers)
+            alone, _ = k10.run_scripts(events, results, f"c08h{idx}", via=via, only={j}, timers=timers, raw=True)
             a, b = hist[j], alone[j]
             stats["programs_compared"] += 1
             text = None
@@ -176,6 +198,12 @@ def entry_point_histories(res, tier):
                 d = cm.first_diff(normalize(a["mir"]), normalize(b["mir"]))
                 if d:
                     text = f"MIR after the history differs from the MIR of the same program compiled alone: {d}"
+                else:
+                    ra, rb = resolved_refs(a["raw"]), resolved_refs(b["raw"])
+                    bad = next((x for x, y in zip(ra, rb) if x != y), None)
+                    if bad is not None:
+                        text = f"source reference of {bad[:-1]} after the history designates {bad[-1]}, compiled alone it designates " \
+                               f"{next(y for x, y in zip(ra, rb) if x != y)[-1]}"
             elif a.get("err") != b.get("err"):
                 text = f"after the history: {a.get('msg')}; alone: {b.get('msg')}"
             if text:
@@ -267,10 +295,11 @@ def replay(obj):
         reset_globals()
         m = interp.run_events(copy.deepcopy(obj["events"]))
         j = obj["program_index"]
-        hist, _ = k10.run_scripts(m.events, m.results, "c08rh", via=obj["via"], timers=obj.get("timers", False))
-        alone, _ = k10.run_scripts(m.events, m.results, "c08rf", via=obj["via"], only={j}, timers=obj.get("timers", False))
+        hist, _ = k10.run_scripts(m.events, m.results, "c08rh", via=obj["via"], timers=obj.get("timers", False), raw=True)
+        alone, _ = k10.run_scripts(m.events, m.results, "c08rh", via=obj["via"], only={j}, timers=obj.get("timers", False), raw=True)
         a, b = hist[j], alone[j]
         bad = ("mir" in a) != ("mir" in b) or ("mir" in a and cm.first_diff(normalize(a["mir"]), normalize(b["mir"]))) \
+            or ("mir" in a and resolved_refs(a["raw"]) != resolved_refs(b["raw"])) \
             or ("mir" not in a and a.get("err") != b.get("err"))
         print("differs" if bad else "same")
         if bad:
